@@ -223,6 +223,12 @@ def _queries(D, G, cell):
     d = Da.shape[1]
     v = np.array([0.137, -0.083, 0.061][:d])
     qs = [Ga[0] + v, Da[len(Da) // 2] + 0.5 * v, Ga[-1] - 2 * v, Da.mean(axis=0) + v]
+    # queries sharing single coordinates with descriptors (but equal to none of them)
+    for (i, j) in ((0, len(Da) - 1), (1, len(Da) // 2)):
+        q = Da[i].copy()
+        q[-1] = Da[j][-1]
+        if not (np.abs(Da - q).max(axis=1) < 1e-12).any():
+            qs.append(q)
     span = (Da.max(axis=0) - Da.min(axis=0)).max() + 1.0
     if cell is None:
         qs += [Da.mean(axis=0) + 6 * span * np.ones(d), Ga[0] - 15 * span * np.eye(d)[0]]
